@@ -52,21 +52,23 @@ Proof.
   - simpl. now rewrite IH.
 Qed.
 
-Lemma qget_qset_same k v q : qget k (qset k v q) = Some v.
-Proof. unfold qset. simpl. now rewrite str_eqb_refl. Qed.
-
-Lemma qget_qset_other k k' v q : k <> k' -> qget k (qset k' v q) = qget k q.
-Proof.
-  intro H. unfold qset. simpl. rewrite (str_eqb_neq k' k); auto.
-  now apply qget_qdel_other.
-Qed.
-
 Lemma qget_app k q1 q2 :
   qget k (q1 ++ q2) = match qget k q1 with Some v => Some v | None => qget k q2 end.
 Proof.
   induction q1 as [|[k' v] q1 IH]; simpl; [reflexivity|].
   destruct (str_eqb k' k); [reflexivity|exact IH].
 Qed.
+
+Lemma qget_qset_same k v q : qget k (qset k v q) = Some v.
+Proof. unfold qset. rewrite qget_app, qget_qdel_same. simpl. now rewrite str_eqb_refl. Qed.
+
+Lemma qget_qset_other k k' v q : k <> k' -> qget k (qset k' v q) = qget k q.
+Proof.
+  intro H. unfold qset. rewrite qget_app, (qget_qdel_other k k' q H).
+  destruct (qget k q); [reflexivity|]. simpl. now rewrite (str_eqb_neq k' k) by (intro E; now symmetry in E).
+Qed.
+
+
 
 Lemma k_n_neq_last : k_n <> k_last. Proof. discriminate. Qed.
 Lemma k_n_neq_at : k_n <> k_at. Proof. discriminate. Qed.
@@ -251,10 +253,7 @@ Proof.
   intro Hcu. unfold mk_request. cbn [is_empty negb u_query]. rewrite andb_false_r.
   destruct (0 <? c_n c)%Z; [|apply cursor_read_link].
   unfold qset. cbn [qdel]. rewrite (str_eqb_neq (ckey cu) k_n) by (now apply ckey_neq_n).
-  destruct cu as [|ck0 s0]; unfold cursor_read, qget_s; cbn [ckey cenc qget].
-  - rewrite (str_eqb_neq k_n k_last) by exact k_n_neq_last. now rewrite str_eqb_refl.
-  - rewrite (str_eqb_neq k_n ck0) by (intro E; symmetry in E; now apply (ckey_neq_n (CToken ck0 s0) Hcu) in E).
-    rewrite str_eqb_refl. apply strip_app.
+  cbn [app]. apply cursor_read_link.
 Qed.
 
 Lemma mk_request_other_pre c u last k :
